@@ -76,7 +76,8 @@ def _drive(sd, texts, cases):
     for attempt in (1, 2):
         ov = vf.make_overlay(sd, HARNESS)
         p = vf.go_test(ov, "./internal/util/", "^TestVerifC19(Minify|Write)$",
-                       env={"VERIF_IN": tin, "VERIF_OUT": ioa, "VERIF_CASES": cin, "VERIF_OUT_B": iob}, timeout=600)
+                       env={"VERIF_IN": tin, "VERIF_OUT": ioa, "VERIF_CASES": cin, "VERIF_OUT_B": iob,
+                            "VERIF_SEED": str(vf.SEED), "VERIF_ROUNDS": "4" if vf.TIER == "thorough" else "2"}, timeout=1500)
         # the generated-file cache is shared with concurrently running checks, which may prune an entry between
         # make_overlay and the compiler opening it: regenerate once
         if not (p.returncode != 0 and "verif-cache" in p.stdout + p.stderr and "no such file" in p.stdout + p.stderr):
@@ -86,7 +87,9 @@ def _drive(sd, texts, cases):
     la, lb = vf.read_ndjson(ioa), vf.read_ndjson(iob)
     if [r["in"] for r in la] != texts:
         raise vf.NoVerdict("driver did not run the texts TLC generated")
-    if [r["id"] for r in lb] != list(range(1, len(cases) + 1)):
+    nseq = sum(1 for c in cases if c.get("g") != "conc")
+    if ([r["id"] for r in lb[:nseq]] != [i + 1 for i, c in enumerate(cases) if c.get("g") != "conc"]
+            or {r["id"] for r in lb} != set(range(1, len(cases) + 1))):
         raise vf.NoVerdict("driver did not run every generated case")
     return la, lb, cin
 
@@ -162,6 +165,7 @@ def run():
         "domain = lexically well-formed JSON text (strings closed, escapes valid, no stray characters between tokens, no two literals separated only by white space); every grammatical JSON text is in it",
         "decoding is at token level (punctuation, literal runs, strings with escapes resolved to UTF-16 units): the JSON value is a function of that sequence; number spellings are compared as text",
         "the HTTP client gunzips iff Content-Encoding says gzip, and can only do so if it offered gzip; gzip/UTF-8/net/http of the Go library are trusted as the projection",
+        "concurrent schedules of the real writer are sampled (Go scheduler, yields at every WriteHeader/Write, GOMAXPROCS 1/2/8); every interleaving is explored on the model only",
         "handlers that call JSONMinify themselves and then w.Write (logon reply, validation dictionary, user list) are covered through JSONMinify only",
     ]
     with vf.scratch() as sd:
@@ -185,6 +189,9 @@ def run():
             # negative controls
             "asis": ("JsonMinify", "JsonMinify_MC_asis.cfg", {}),
             "wneg": ("JsonWrite", "JsonWrite_MC_neg.cfg", {}),
+            # concurrent writers: every interleaving of the steps of 2 (thorough 3) responses
+            "cmc": ("JsonWriteConc", "JsonWriteConc_MC3.cfg" if thorough else "JsonWriteConc_MC.cfg", {}),
+            "cneg": ("JsonWriteConc", "JsonWriteConc_MC_neg.cfg", {}),
         }
         if thorough:
             jobs["mc7"] = ("JsonMinify", "JsonMinify_MC.cfg", {})
@@ -198,11 +205,11 @@ def run():
                 cfg = name + ".cfg"
             kw = dict(kw)
             kw.setdefault("workers", 4 if name in ("genA", "genB", "mc7") else 1)
-            r = vf.tlc(SPEC, mod, cfg, sd, timeout=1100 if thorough else 500, files=files, env=JVM_SMALL, **kw)
+            r = vf.tlc(SPEC, mod, cfg, sd, timeout=1150, files=files, env=JVM_SMALL, **kw)
             vf.log("tlc %-6s %6.1fs  %d states, %d records" % (name, r.wall, r.distinct, len(r.records)))
             return name, r
 
-        with ThreadPoolExecutor(max_workers=5) as ex:
+        with ThreadPoolExecutor(max_workers=6) as ex:
             res = dict(ex.map(one, jobs.items()))
 
         # 1. the design satisfies C19
@@ -210,6 +217,7 @@ def run():
                          ("genB", "MC bounded: all texts over 5 symbols up to length %d" % lb_len),
                          ("mcu", "MC unbounded (VIEW = scanner modes): Sync + WriteRule"),
                          ("wmc", "MC response writer: every response is decodable by its client"),
+                         ("cmc", "MC concurrent response writers: every finished response carries its own value"),
                          ("mc7", "MC bounded: all texts over 8 symbols up to length 7")):
             if nm in res:
                 vf.tlc_ok(res[nm], what)
@@ -227,6 +235,9 @@ def run():
         if res["wneg"].violated != "Decodable":
             raise vf.NoVerdict("negative control: writer without fallback did not violate Decodable (%s)" % res["wneg"].violated)
         chk.add_tlc(res["wneg"], "negative control: no fallback when gzip does not shrink violates Decodable", count_states=False)
+        if res["cneg"].violated != "OwnValue":
+            raise vf.NoVerdict("negative control: pooled gzip buffer did not violate OwnValue (%s)" % res["cneg"].violated)
+        chk.add_tlc(res["cneg"], "negative control: gzip buffer returned to a shared pool while still referenced violates OwnValue", count_states=False)
         if thorough:
             if res["asisu"].violated != "Sync":
                 raise vf.NoVerdict("negative control: the as-is loop did not violate Sync")
@@ -257,12 +268,15 @@ def run():
         vf.log("driver done at %.0fs: %d texts, %d cases" % (time.time() - chk.t0, len(texts), len(cases)))
         ngz = sum(1 for r in lb if r["kind"] == "gzip")
         nplain_big = sum(1 for r in lb if r["kind"] == "plain" and r["wire"] >= 4096)
-        noffer_plain = sum(1 for r, c in zip(lb, cases)
-                           if r["kind"] == "plain" and c["ae"] == "gzip" and c["thr"] == 16 and r["wire"] >= 16)
+        noffer_plain = sum(1 for r in lb if r["kind"] == "plain" and cases[r["id"] - 1]["ae"] == "gzip"
+                           and cases[r["id"] - 1]["thr"] == 16 and r["wire"] >= 16)
+        conc = [r for r in lb if cases[r["id"] - 1].get("g") == "conc"]
+        nconc_gz = sum(1 for r in conc if r["hdr"] == "gzip")
+        nconc_plain = sum(1 for r in conc if r["hdr"] == "")
         good = _judge(chk, sd, la, lb, cases, cin)
-        if not chk.cands and (not ngz or not nplain_big or not noffer_plain):
-            raise vf.NoVerdict("level B did not exercise both sides of the compression decision (gzip=%d big-plain=%d incompressible=%d)"
-                               % (ngz, nplain_big, noffer_plain))
+        if not chk.cands and (not ngz or not nplain_big or not noffer_plain or nconc_gz < 100 or nconc_plain < 100):
+            raise vf.NoVerdict("level B did not exercise both sides of the compression decision (gzip=%d big-plain=%d incompressible=%d; "
+                               "concurrent: gzip=%d plain=%d)" % (ngz, nplain_big, noffer_plain, nconc_gz, nconc_plain))
 
         # evidence
         chk.cov["traces_validated_against_impl"] = len(la) + len(lb)
@@ -270,13 +284,17 @@ def run():
         chk.cov["distinct_nontrivial"] = sum(1 for x in texts if 34 in x) + len(cases)
         chk.cov["levelA"] = {"exhaustive_texts": len(exh), "simulated_long_texts": len(sim),
                              "max_len": max(map(len, texts)), "with_backslash": sum(1 for x in texts if 92 in x)}
+        chk.cov["levelB_concurrent"] = {"responses": len(conc), "compressed": nconc_gz, "plain": nconc_plain,
+                                        "gomaxprocs": [1, 2, 8], "client_goroutines": 8,
+                                        "thresholds": sorted({cases[r["id"] - 1]["thr"] for r in conc})}
         chk.cov["levelB"] = {"cases": len(cases), "compressed": ngz, "plain_over_default_threshold": nplain_big,
                              "offered_over_threshold_but_incompressible": noffer_plain}
         chk.cov["exhaustive"] = True
         chk.cov["rule"] = ("level A: every well-formed text over {\" \\ space NBSP , a n u} up to length %d and over {\" \\ space NBSP n} up to length %d "
                            "(exhaustive BFS of JsonMinify_Gen), plus a seeded sample of TLC-simulated texts up to 40 code points over 30 and 13 symbols, all run through the "
                            "real JSONMinify and judged by JsonMinify_Trace; level B: TLC-generated values x (Accept-Encoding, threshold) through the real "
-                           "WriteJSON over HTTP, judged by JsonWrite_Trace; distinct_nontrivial = texts containing a string + cases"
+                           "WriteJSON over HTTP, one at a time and then overlapping (distinct values, 8 client goroutines, GOMAXPROCS 1/2/8, handlers yielding at every "
+                           "WriteHeader/Write, thresholds 0/16/4096 around body sizes 40/700/7000), every response judged by JsonWrite_Trace against its own value; distinct_nontrivial = texts containing a string + cases"
                            % (la_len, lb_len))
         ex1 = next((x for x in texts if x[:4] == [34, 92, 92, 34] and len(x) > 6), texts[-1])
         chk.sample({"kind": "level A text (code points)", "in": ex1, "text": _show(ex1)})
